@@ -645,11 +645,14 @@ def _total_validators(chk, repo, cv):
     # a section that is present must be a mapping: only an absent section (None) is replaced by an empty one
     vc = cv.methods["validate_config"]
     chk.analysed(vc)
-    repl = [x for x in ast.walk(vc.node) if isinstance(x, ast.If) and any(isinstance(y, ast.Assign) and src(y.targets[0]) == "source" for y in x.body)]
-    from sa.cfg import canon_fact as _cf
-    ok = len(repl) == 1 and _cf(src(repl[0].test), True) == _cf("source is None", True) and not repl[0].orelse
+    from sa.cfg import canon_fact as _cf, canon_set as _cs12
+    from sa.helpers import positive as _pos12
+    vcfg = vc.cfg()
+    repl = [n for n in vcfg.nodes if n.kind == "stmt" and isinstance(n.ast, ast.Assign) and src(n.ast.targets[0]) == "source"]
+    gsets = [_pos12(set(_cs12(vcfg.guards_at(n.id)))) for n in repl]
+    ok = len(repl) == 1 and gsets[0] == {_cf("source is None", True)}
     chk.ob("SIB-6", "validate_config replaces the section by an empty one exactly when it is absent (None); every other non-mapping is rejected", ok,
-           vc.where(repl[0] if repl else None), detail="replaced when %s" % (src(repl[0].test) if repl else "?"), construct=vc.ident,
+           vc.where(repl[0].ast if repl else None), detail="replaced under %s" % [sorted(g) for g in gsets], construct=vc.ident,
            text="absent section default")
 
 
@@ -960,6 +963,7 @@ def battery():
         M("twin: new spec entry", Y, "    level_x: single|int|0", "    level_x: single|int|0\n    level_w: single|float(0,1)|0.5", None),
         M("unconvertible bool accepted as None", CV, "        raise self.validation_error(item, validation_failure_info, \"Cannot convert value to boolean.\", 13)\n", "", "TOTAL-12"),
         M("numeric template guard admits floats", CV, "        if not isinstance(item, (str, int)):\n            raise self.validation_error(item, validation_failure_info, \"Template has to be string/int.\")", "        if not isinstance(item, (str, int, float)):\n            raise self.validation_error(item, validation_failure_info, \"Template has to be string/int.\")", "SIB-6"),
+        M("twin: absent-section test inverted", CV, "        if source is None:\n            source = dict()\n\n        validation_failure_info = ValidationPath(parent=None,", "        if source is not None:\n            pass\n        else:\n            source = dict()\n\n        validation_failure_info = ValidationPath(parent=None,", None),
         M("empty-string section treated as absent", CV, "        if source is None:\n            source = dict()\n\n        validation_failure_info = ValidationPath(parent=None,", "        if source is None or source == '':\n            source = dict()\n\n        validation_failure_info = ValidationPath(parent=None,", "SIB-6"),
         M("template_ms accepts any type", CV, "        self._assert_int_float_template(item, validation_failure_info)\n\n        # try to convert to int. if we fail it will be a template", "        # try to convert to int. if we fail it will be a template", "SIB-6"),
         M("list helper swallows 0", "mpf/core/utility_functions.py", "        if isinstance(string, str):\n            # empty string is an empty list\n            if string == '':\n                return []\n\n            # Convert commas to spaces", "        if not string:\n            return []\n        if isinstance(string, str):\n            # Convert commas to spaces", "LIST-12"),
